@@ -3,8 +3,8 @@ import json
 
 from .. import enginecheck
 
-QUICK = ['a,X,n', 'a,a,X,n,n', 'a,n,X,n', 'a,a,n,X,b,c', 'A2,X,b,c']
-THOROUGH = ['a,a,n,X,n,X,n', 'a,a,a,X,b,b', 'a,n,a,X,n,n', 'a,a:u,X,n,n:u', 'a,X,a,X,B,c', 'a,a,b,X,c,a,n', 'a,a,R,n,n,c', 'A3,n,X,b,c']
+QUICK = ['a,X,n', 'a,a,X,n,n', 'a,n,X,n', 'A2,X,b,c']
+THOROUGH = ['a,a,n,X,b,c', 'a,a,n,X,n,X,n', 'a,a,a,X,b,b', 'a,n,a,X,n,n', 'a,a:u,X,n,n:u', 'a,X,a,X,B,c', 'a,a,b,X,c,a,n', 'a,a,R,n,n,c', 'A3,n,X,b,c']
 DIFF = [
     dict(skel='a,a,a,X,B,c', sizes=[100, 15 * 2 ** 20, 100], budgets=[]),
     dict(skel='a,a,n,X,n,c,X,c', sizes=[10, 20], budgets=[]),
@@ -16,10 +16,13 @@ DIFF = [
 
 def main(tier, seed):
     skels = QUICK + (THOROUGH if tier == 'thorough' else [])
-    jobs = [dict(skel=s, backend='fd', consistency='StrictlyAtOnce') for s in skels]
-    jobs += [dict(skel=s, backend='mmap', consistency='StrictlyAtOnce') for s in skels[:2]]
+    small = dict(sizecap=32 * 2 ** 20, cfg=dict(eager_div=6))
+    jobs = [dict(skel=s, backend='fd', consistency='StrictlyAtOnce', **small) for s in skels]
+    jobs += [dict(skel=s, backend='mmap', consistency='StrictlyAtOnce', **small) for s in skels[:2]]
+    # one large entry (every accepted size) around a restart, both back ends
+    jobs += [dict(skel=s, backend=b, consistency='StrictlyAtOnce', cfg=dict(eager_div=0)) for s in ['a,X,n,c'] for b in ('fd', 'mmap')]
     bounds = dict(histories='skeletons %s (X = clean shutdown and reopen in a fresh process, R = reopen in the same process); sizes and budgets symbolic' % skels,
-                  payload_size='0 .. 2^30-256', reopens='<= 2 per history', files='<= 3', clock='monotone between runs (clock regression is not modelled yet)',
+                  payload_size='0 .. 32 MiB in multi-operation histories (block spans 1..4 units); every accepted size 0 .. 2^30-256 in the single-append history a,X,n,c', reopens='<= 2 per history', files='<= 3', clock='monotone between runs (clock regression is not modelled yet)',
                   loop_unrolling='128 iterations (the recovery scan visits up to 100 units per file)', wall_budget_s=300 if tier == 'quick' else 3000)
     return enginecheck.run('C06', tier, seed, jobs, enginecheck.KINDS['C06'], bounds['wall_budget_s'], DIFF, bounds,
                            cfg=dict(oracles=['C01', 'C03', 'C15'], maxloop=128))
